@@ -101,4 +101,4 @@ def run(pid, tier, seed, replay):
         coverage={"input_distribution": dist, "tail_reader_cases": len(tcases), "tail_reader_blocks": sum(len(c["blocks"]) for c in tcases), "histories": len(cases), "observations_compared": nobs, "case_shards": nshards},
         samples=samples,
         rule="(tail) a real Reader.ReadMessage loop in its own goroutine, held by the verif hook in front of segment.waitForData while the driver appends, rolls segments by size and by age (package clock under the driver's control) and truncates, then released until it parks or spins: delivered count, end state and segments compared with the LTS of Log/TailWait.v after every block, and a parked or spinning reader with undelivered messages is a violation; (histories) operation histories (append batches 1-5 with nil/empty/short/large keys, values, headers; message-set appends; truncations at random offsets, segment bases, the end; close/reopen; HW moves) over segment limits 70..400 bytes and unlimited, each followed by uncommitted and committed readers from every segment boundary +-1, 0, hw, hw+1, newest, newest+1; non-trivial = >=3 records and (a truncate, a reopen or a segment limit that forces rolls); distinct by (limit, op kinds, offsets, batch sizes)",
-        evaluations=len(cases), distinct_nontrivial=len(canon), traces=len(cases))
+        evaluations=len(cases) + len(tcases), distinct_nontrivial=len(canon) + len(set(json.dumps(c['blocks']) for c in tcases if len(c['blocks']) >= 2)), traces=len(cases) + len(tcases))
